@@ -1,6 +1,6 @@
 (** Entry point of the extracted model driver: one case line in, one result line out.
     The first token selects the operation. *)
-From Lisp Require Import Wire Equal.
+From Lisp Require Import Wire Equal Boot.
 
 Definition bad : list N := s_ "BADCASE".
 
@@ -15,10 +15,32 @@ Definition run_equal (ts : list tok) : list N :=
   | _ => bad
   end.
 
+(** outcome line: "V <value>" | "E <error value>" | "P" | "O" (out of fuel) *)
+Definition show_outcome (o : outcome val) : list N :=
+  match o with
+  | Ok v => s_ "V " ++ show_val v
+  | Err e => s_ "E " ++ show_val e
+  | Panic _ => s_ "P "
+  | OutOfFuel => s_ "O "
+  end.
+
+Definition RUN_FUEL : nat := 20000.
+
+(** P <ast>: evaluate a position-less AST in a fresh initial environment;
+    output: outcome | trace (oldest first) *)
+Definition run_program (ts : list tok) : list N :=
+  match parse_value ts with
+  | Some (ast, []) =>
+      let '(o, st) := eval RUN_FUEL 1 ast ROOT init_state in
+      show_outcome o ++ s_ "| " ++ show_val (VList (rev (trace st)) None)
+  | _ => bad
+  end.
+
 Definition run_tokens (ts : list tok) : list N :=
   match ts with
   | TTag c :: r =>
       if N.eqb c (tagc "Q") then run_equal r
+      else if N.eqb c (tagc "P") then run_program r
       else bad
   | _ => bad
   end.
